@@ -377,6 +377,10 @@ type GetETag struct {
 type ETag string
 
 func (etag *ETag) UnmarshalText(b []byte) error {
+	// strconv.Unquote also accepts single-quoted and back-quoted Go literals
+	if len(b) < 2 || b[0] != '"' {
+		return fmt.Errorf("webdav: failed to unquote ETag: not a quoted string")
+	}
 	s, err := strconv.Unquote(string(b))
 	if err != nil {
 		return fmt.Errorf("webdav: failed to unquote ETag: %v", err)
